@@ -51,3 +51,26 @@ package pipe
 //@   modifies *
 //@   ensures 0 <= n && n <= len(d)
 //@   ensures err == nil ==> n == len(d)
+
+// ---- C35: closing a body pipe needs a pipe ----
+
+//@ func (*Pipe).CloseWithError
+//@   props C35
+//@   nopanic nil
+//@   requires p != nil
+//@   frame closeWithError args
+//@   modifies *p
+
+//@ func (*Pipe).CloseWithErrorAndCode
+//@   props C35
+//@   nopanic nil
+//@   requires p != nil
+//@   frame closeWithError args
+//@   modifies *p
+
+//@ func (*Pipe).BreakWithError
+//@   props C35
+//@   nopanic nil
+//@   requires p != nil
+//@   frame closeWithError args
+//@   modifies *p
